@@ -188,6 +188,8 @@ def takes_bytes(a: bytes) -> None: pass
 def to_str(a: int) -> str: return str(a)
 '''
 LITS = ["1", "True", '"a"', "None", "1.5", 'b"x"', "un"]      # un: an unannotated parameter of the caller (Any): contributes no bound
+CLS = ["int", "str", "float", "bool"]
+CLS_REP = {"int": "1", "str": '"a"', "float": "1.5", "bool": "True"}       # a representative instance: passing the class makes its instances lower bounds
 CBS = ["takes_object", "takes_int", "takes_float", "takes_str", "takes_bool", "takes_bytes"]
 # (def source, parameter kinds: 'T' / 'TB' / 'TC' literal parameter, 'cbTB' / 'cbTC' / 'cbT' callback parameter, typevar returned)
 FORMS = [
@@ -206,6 +208,9 @@ FORMS = [
     ("def f(a: TC, b: TC) -> None: return None", ["TC", "TC"], "TC!"), ("def f(a: TB, b: Callable[[TB], None]) -> bool: return True", ["TB", "cbTB"], "TB!"),
     ("def f(a: Callable[[T], None], b: T) -> bool: return True", ["cbT", "T"], "T!"), ("def f(a: Callable[[T], None], b: T, c: T) -> int: return 0", ["cbT", "T", "T"], "T!"),
     ("def f(a: T, b: Callable[[T], None], c: Callable[[T], None]) -> None: return None", ["T", "cbT", "cbT"], "T!"),
+    # the type variable under type[...]: the argument is a class object, its instances are the lower bound
+    ("def f(a: type[TB]) -> TB: return a()", ["clsTB"], "TB"), ("def f(a: type[TC]) -> TC: return a()", ["clsTC"], "TC"), ("def f(a: type[T], b: T) -> T: return b", ["clsT", "T"], "T"),
+    ("def f(a: type[TB], b: TB) -> TB: return b", ["clsTB", "TB"], "TB"),
 ]
 CB_PARAM = {"takes_object": "object", "takes_int": "int", "takes_float": "float", "takes_str": "str", "takes_bool": "bool", "takes_bytes": "bytes"}
 DECL = {"T": None, "TB": "float", "TC": ("int", "str")}
@@ -218,7 +223,7 @@ def _calls(res, tier, fi, only=None):
     pre = U.PRELUDE + HELP
     argsets = []
     for k in kinds:
-        argsets.append(CBS if k.startswith("cb") else LITS)
+        argsets.append(CBS if k.startswith("cb") else (CLS if k.startswith("cls") else LITS))
     calls = list(itertools.product(*argsets))
     if only is not None:
         calls = [tuple(only)]
@@ -248,7 +253,7 @@ def _calls(res, tier, fi, only=None):
         for ci, c in enumerate(calls):
             res.states += 1
             order = fi * 100000 + ci
-            lows = [eval(c[i], ns) for i, k in enumerate(kinds) if not k.startswith("cb") and c[i] != "un"]
+            lows = [eval(CLS_REP[c[i]] if k.startswith("cls") else c[i], ns) for i, k in enumerate(kinds) if not k.startswith("cb") and c[i] != "un"]
             ups = [CB_PARAM[c[i]] for i, k in enumerate(kinds) if k.startswith("cb")]
             verdicts = {}
             case = {"mode": "calls", "form": fi, "call": list(c), "order": order}
